@@ -125,6 +125,11 @@ func (w *world) newHandler(ctx context.Context, kind string) (*hstate, *hqueue) 
 	if cv, ok := ctx.Value(connKey{}).(int); ok {
 		hs.conn = cv
 	}
+	if lt, ok := ctx.Value(lazyKey{}).(*lazyTap); ok && hs.conn == 0 {
+		lt.mu.Lock()
+		hs.conn = lt.conn // relay topologies: the logical connection knows its client by now
+		lt.mu.Unlock()
+	}
 	// a call token serves one handler incarnation; later ones get the default program
 	var q *hqueue
 	if c != 0 && !w.usedTok[c] {
